@@ -264,6 +264,15 @@ func (sw *SlidingWindow) Add(data any) {
 			// AllowedLateness == 0 (default) and not in the current window: drop
 			sw.dropLastRow()
 		}
+	} else if timeChar == types.EventTime && sw.currentSlot != nil && eventTime.Before(*sw.currentSlot.Start) {
+		// On-time row (not behind the watermark) that precedes the current slot:
+		// the slide-aligned window holding it cannot have fired yet, so re-anchor
+		// the slot cursor on it. Otherwise the cursor only moves forward and the
+		// row is evicted unseen. A row in a gap between windows (slide > size) is
+		// in no window and leaves the cursor alone.
+		if slot := sw.createSlotFromStart(alignWindowStart(eventTime, sw.slide)); slot.Contains(eventTime) {
+			sw.currentSlot = slot
+		}
 	}
 }
 
